@@ -51,25 +51,8 @@ def wrong_value(rng, t):
     return ('str', [65, 66])
 
 
-def gen_case(rng):
-    n = rng.choice([0, 1, 1, 2, 2, 3, 3, 3, 4, 5])
-    ids = rng.sample(range(1, 12), n)
-    if n >= 2 and rng.random() < 0.06:
-        ids[rng.randrange(1, n)] = ids[0]            # duplicate column name (same column bound twice)
-    types = [rng.choice(B.TYPES) for _ in range(n)]
-    types = [types[ids.index(x)] for x in ids]       # the same column has the same type (bytes(int) would allocate)
-    mode = rng.choice(['server', 'server', 'table', 'table', 'none'])
-    server_pk, table_pk = [], None
-    if mode == 'server' and n:
-        k = rng.choice([1, 1, 2, 2, 3])
-        server_pk = rng.sample(range(n), min(k, n))
-    elif mode == 'table':
-        k = rng.choice([1, 1, 2, 2, 3])
-        pool = list(dict.fromkeys(ids))
-        if rng.random() < 0.15:
-            pool = pool + [99]                       # a partition key column the statement does not bind
-        table_pk = rng.sample(pool, min(k, len(pool)))
-    pv = rng.choice(PVS)
+def gen_input(rng, ids, types):
+    n = len(ids)
     kind = rng.choice(['list', 'list', 'dict'])
     r = rng.random()
     if r < 0.55:
@@ -106,6 +89,29 @@ def gen_case(rng):
         if rng.random() < 0.3:
             pairs.insert(rng.randint(0, len(pairs)), (rng.choice([50, 51]), rng.choice([None, ('int', 1), ('unset',)])))
         inp = ('dict', pairs)
+    return inp
+
+
+def gen_case(rng):
+    n = rng.choice([0, 1, 1, 2, 2, 3, 3, 3, 4, 5])
+    ids = rng.sample(range(1, 12), n)
+    if n >= 2 and rng.random() < 0.06:
+        ids[rng.randrange(1, n)] = ids[0]            # duplicate column name (same column bound twice)
+    types = [rng.choice(B.TYPES) for _ in range(n)]
+    types = [types[ids.index(x)] for x in ids]       # the same column has the same type (bytes(int) would allocate)
+    mode = rng.choice(['server', 'server', 'table', 'table', 'none'])
+    server_pk, table_pk = [], None
+    if mode == 'server' and n:
+        k = rng.choice([1, 1, 2, 2, 3])
+        server_pk = rng.sample(range(n), min(k, n))
+    elif mode == 'table':
+        k = rng.choice([1, 1, 2, 2, 3])
+        pool = list(dict.fromkeys(ids))
+        if rng.random() < 0.15:
+            pool = pool + [99]                       # a partition key column the statement does not bind
+        table_pk = rng.sample(pool, min(k, len(pool)))
+    pv = rng.choice(PVS)
+    inp = gen_input(rng, ids, types)
     return {'names': ids, 'types': types, 'server_pk': server_pk, 'table_pk': table_pk, 'pv': pv, 'input': inp}
 
 
@@ -242,6 +248,87 @@ def oracle(case, res):
     return out
 
 
+def gen_history(rng):
+    """one BoundStatement, 2-6 operations: bind / read routing_key, mostly valid bindings with fresh values each time"""
+    c = gen_case(rng)
+    while not c['names'] or not (c['server_pk'] or c['table_pk']):
+        c = gen_case(rng)
+    c.pop('input')
+    ops = []
+    for _ in range(rng.choice([2, 3, 4, 4, 5, 6])):
+        if ops and ops[-1][0] == 'bind' and rng.random() < 0.75:
+            ops.append(['read'])
+        elif rng.random() < 0.8:
+            if rng.random() < 0.7:          # a complete valid positional / named binding
+                vals = [gen_value(rng, t) for t in c['types']]
+                inp = ('list', vals) if rng.random() < 0.6 or len(set(c['names'])) != len(c['names']) else ('dict', list(zip(c['names'], vals)))
+            else:
+                inp = gen_input(rng, c['names'], c['types'])
+            ops.append(['bind', inp])
+        else:
+            ops.append(['read'])
+    c['ops'] = ops
+    c['explicit'] = [rng.randrange(256) for _ in range(rng.choice([1, 4, 9]))] if rng.random() < 0.12 else None
+    return c
+
+
+def expected_key(case, inp, idx):
+    """routing key the statement must report for a successful binding of inp: ('bytes', [...]) | ('none',) | None (no requirement)"""
+    n = len(case['names'])
+    want = as_list(dict(case, input=inp))
+    if not idx:
+        return ('none',)
+    parts = []
+    for i in idx:
+        w = want[i] if i < n else ('missing',)
+        if w is None:
+            return ('none',) if len(idx) == 1 else None
+        if w[0] not in ('int', 'str', 'bytes'):
+            return None
+        p = spec_serialize(case['types'][i], w, case['pv'])
+        if p is None:
+            return None
+        parts.append(p)
+    if len(parts) > 1 and any(len(p) >= 65536 for p in parts):
+        return None
+    return ('bytes', spec_composite(parts))
+
+
+def normalise_history(case):
+    c = dict(case)
+    c['ops'] = [['bind', normalise({'input': op[1]})['input']] if op[0] == 'bind' else ['read'] for op in case['ops']]
+    return c
+
+
+def evaluate_history(case):
+    case = normalise_history(case)
+    res = B.run_history(case)
+    probs = []
+    idx = res['idx']
+    earlier, seen_keys, last = [], [], None           # keys of earlier successful binds / reported by earlier reads; the binding in effect
+    for op, ob in zip(case['ops'], res['obs']):
+        if op[0] == 'bind':
+            if last is not None and last != 'broken' and last[0] == 'bytes':
+                earlier.append(last[1])
+            last = expected_key(case, op[1], idx) if ob[1] is None else 'broken'    # a failed bind leaves the statement unbound
+            if ob[1] is None and (last is None):
+                last = 'broken'
+        elif case.get('explicit') is None and last not in (None, 'broken'):
+            rk = ob[1]
+            if list(rk) != list(last):
+                if rk[0] == 'bytes' and (rk[1] in earlier or rk[1] in seen_keys):
+                    probs.append(('routing_key.stale-after-rebind', 'after re-binding, routing_key is still %r (the key of an earlier binding); '
+                                  'the row now addressed has key %r' % (rk[1][:40], last), 'C30_rebind_routing_key', last))
+                elif rk[0] == 'bytes':
+                    probs.append(('routing_key.wrong-encoding.history', 'routing key %r, expected %r' % (rk[1][:40], last), 'C30_rebind_routing_key', last))
+                elif last[0] == 'bytes':
+                    probs.append(('routing_key.missing.history', 'partition key fully bound but routing_key is %r' % (rk,), 'C30_rebind_routing_key', last))
+                break
+        if op[0] == 'read' and ob[1][0] == 'bytes' and ob[1][1] not in seen_keys:
+            seen_keys.append(ob[1][1])
+    return res, probs
+
+
 def named_twin(case):
     """the by-name form of a positional binding (when the statement's equality applies)"""
     n = len(case['names'])
@@ -298,20 +385,21 @@ def run(ctx):
     ctx.trust('transcription of cassandra/query.py (from_message, bind, _append_unset_value, routing_key, _key_parts_packed) into Model/Bind.v, tied by correspondence',
               'composite_spec (Model/CompositeSpec.v): Cassandra CompositeType partition-key encoding, transcribed',
               'per-column serializers abstract in theorems (C01/C02); Int32/UTF8/Bytes modelled concretely only to run cases')
-    ctx.assume('no explicit routing_key passed to BoundStatement(); each BoundStatement bound once before routing_key is read')
+    ctx.assume('an explicit routing_key passed to BoundStatement() is returned as given (API behaviour, modelled, no requirement on its value)')
     rng = ctx.rng
     ncases = 1500 if ctx.tier == 'quick' else 12000
-    cases = []
+    cases, hists = [], []
     corpus = os.path.join(core.VERIF, 'corpus', 'C30')
     if os.path.isdir(corpus):
         for fn in sorted(os.listdir(corpus)):
             with open(os.path.join(corpus, fn)) as f:
-                cases.append(json.load(f)['case'])
+                c = json.load(f)['case']
+                (hists if 'ops' in c else cases).append(c)
     cases += boundary_cases(rng, ctx.tier == 'thorough')
     cases += [gen_case(rng) for _ in range(ncases)]
     ctx.rule = ('random bind metadata (0-5 columns of int/text/blob, occasionally a duplicated name; routing indexes from the server, from table '
                 'metadata in table order, or absent) x protocol versions {1..6,65,66} x value lists/dicts with None/UNSET/wrong-typed/missing/extra '
-                'entries + boundary cases (64 KiB components, short list on v3); non-trivial = distinct case with at least one column whose '
+                'entries + boundary cases (64 KiB components, short list on v3) + histories of 2-6 bind/read-routing_key operations on ONE BoundStatement (12% with an explicit constructor routing_key); non-trivial = distinct case with at least one column whose '
                 'outcome is not a plain full valid positional binding, or with a routing key')
     ctx.exhaustive = False
     import time
@@ -334,7 +422,34 @@ def run(ctx):
             ctx.violation(key, what + '  [case %s]' % short(case), case=case, expected=exp, actual=res, theorem=thm)
         gall.append(B.g_case(case, res))
         meta.append((case, res))
+    # histories on one BoundStatement: bind / read routing_key / bind again / read ...
+    hists += [gen_history(rng) for _ in range(400 if ctx.tier == 'quick' else 4000)]
+    hgall, hmeta = [], []
+    for h in hists:
+        res, probs = evaluate_history(h)
+        nb = sum(1 for o in h['ops'] if o[0] == 'bind')
+        reread = any(a[0] == 'read' for a in h['ops'][:-1]) and nb >= 2
+        ctx.case(h, nontrivial=reread, sample=None if ctx.evaluations % 50 else {'history': h, 'observed': res['obs']})
+        ctx.count('history_binds', nb)
+        ctx.count('history_len', len(h['ops']))
+        ctx.count('history_explicit_key', 'yes' if h.get('explicit') is not None else 'no')
+        for key, what, thm, exp in probs:
+            ctx.violation(key, what + '  [history %s]' % short(h), case=h, expected=exp, actual=res, theorem=thm, kind='history')
+        hgall.append(B.g_hist_case(normalise_history(h), res))
+        hmeta.append((h, res))
     t2 = time.time()
+    try:
+        hbad = ctx.coq_filter(['CompositeSpec', 'Bind', 'BindHistory'], '(fun b : bool => b)', hgall, shard=150)
+        for i in hbad[:10]:
+            h, res = hmeta[i]
+            try:
+                model = ctx.coq_eval(['CompositeSpec', 'Bind', 'BindHistory'], [B.g_hist(normalise_history(h))])[0]
+            except Exception as e:
+                model = 'n/a (%s)' % str(e)[-100:]
+            ctx.disagreement('model-vs-impl.history', 'Model/BindHistory.v differs from query.py on history %s: impl %s model %s' % (short(h), short(res['obs']), short(model)),
+                             case=h, actual=res, model=model)
+    except RuntimeError as e:
+        ctx.proof_broken.append(('correspondence:BindHistory', str(e)[-800:]))
     try:
         bad = ctx.coq_filter(['CompositeSpec', 'Bind'], '(fun b : bool => b)', gall, shard=250)
         for i in bad[:10]:
@@ -355,7 +470,10 @@ def replay(ctx, rp):
     if not case:
         print('nothing to replay: %s' % rp.get('theorem'))
         return 1
-    res, probs = evaluate(ctx, case)
+    if 'ops' in case:
+        res, probs = evaluate_history(case)
+    else:
+        res, probs = evaluate(ctx, case)
     print('replay %s\n -> %s' % (short(case), short(res)))
     for key, what, thm, exp in probs:
         print('  %s: %s (%s)' % (key, what, thm))
